@@ -2,7 +2,7 @@
 from checks import symgen
 
 ID = 'C08'
-PROP_MODULES = ['QRV.Props.C08', 'QRV.Props.C08Ext', 'QRV.Props.C08RMQR']
+PROP_MODULES = ['QRV.Props.C08', 'QRV.Props.C08Ext', 'QRV.Props.C08RMQR', 'QRV.Props.C08Micro']
 RULE = ('descriptions over the full field ranges: Version/Level/Mask in {min-2..max+2, large, negative large}, every (version, level) pair, segment modes sampled over 0..255 (all '
         'supported ones, their neighbours, reserved QR modes), payloads at max-1 / max / max+1 characters of every (version, level, mode) capacity and of every count-field '
         'limit (2^bits-1, 2^bits), invalid characters at first/last position, invalid UTF-8 in kanji segments, empty segment lists and empty segments. '
@@ -14,13 +14,13 @@ TRUSTED = [
     'symbol models tied by correspondence',
 ]
 ASSUMPTIONS = []
-PARTIAL = 'QR and rMQR: accepted exactly when valid and never panics are theorems; Micro QR: "not an error => valid" (every invalid description is answered with an error by the validation prefix) is a theorem (C08Ext); that every valid description is accepted without panic is exercised against the reference predicate'
+PARTIAL = 'none for the models: accepted exactly when valid, and never a panic, are theorems for all three encoders (qr_/micro_/rmqr_encode_ok_iff_valid, *_encode_no_panic); Encode (PNG rendering on top of EncodeToBitmap) is exercised only'
 MANIFEST = {
     'technique': 'Lean 4: encode_ok_iff_valid and no-panic for the QR encoder model (error-or-valid lemma + round-trip theorem), error-or-valid for Micro QR / rMQR; differential runs over the full field ranges against a reference validity predicate',
     'text': ('QRV/Props/C08.lean proves for the QR encoder model: it succeeds exactly on the descriptions that are valid by the standard (Spec.Valid: fields in range, supported modes, characters valid '
              'for the mode incl. well-formed UTF-8 of kanji-representable characters, count representable, total bits within the capacity of Table 9) and never panics for any field values or byte contents. '
              'For Micro QR and rMQR Props/C08Ext.lean proves that whatever the encoder does not answer with an error is valid (Spec.Valid.Micro / RMQR: legal version-level pair, modes of the version, characters, counts, capacity); '
-             'for rMQR Props/C08RMQR.lean combines this with the round-trip theorem: accepted exactly when valid, never a panic. Micro QR: acceptance of every valid description is exercised at every (version, level, mode) capacity and count limit against an independent validity predicate, on implementation and model.'),
+             'for rMQR Props/C08RMQR.lean combines this with the round-trip theorem: accepted exactly when valid, never a panic. Props/C08Micro.lean does the same for Micro QR (micro_valid_accepted from C01Micro). The accept/reject boundary is additionally exercised at every (version, level, mode) capacity and count limit against an independent validity predicate, on implementation and model.'),
     'note': 'Trusted: Lean kernel; symbol models tied by correspondence; python validity predicates (rMQR capacities/count widths from the regenerated tables).',
 }
 
